@@ -241,23 +241,58 @@ func (s *sgen) runCase(id int) bool {
 			s.hold++
 			hung = s.emit(s.w.stepSync(c, sel, fault, s.hold, mut))
 			if fault == "late" && !hung {
-				// some later exchanges happen before the stale response is applied
-				k := 1 + s.r.intn(2)
+				// later exchanges happen before the stale response is applied: the same client issues
+				// operations and syncs again (its checkpoint moves past the held one) while other
+				// clients push (the log grows past the client's own sequence number)
+				lateHold := s.hold
+				callOn := func(rs2 []int) bool {
+					if len(rs2) == 0 {
+						return false
+					}
+					r := rs2[s.r.intn(len(rs2))]
+					m, a := s.g.genCall(r, false)
+					if s.w.reps[r].typ == "document" {
+						a["_h"] = "root"
+					}
+					return s.emit(s.w.stepCall(r, m, a))
+				}
+				other := func() bool {
+					if len(s.w.clients) < 2 {
+						return false
+					}
+					oc := (c + 1 + s.r.intn(len(s.w.clients)-1)) % len(s.w.clients)
+					ors := s.repsOf(oc)
+					if len(ors) == 0 {
+						return false
+					}
+					if callOn(ors) {
+						return true
+					}
+					s.hold++
+					return s.emit(s.w.stepSync(oc, ors, "", s.hold, nil))
+				}
+				k := 1 + s.r.intn(4)
 				for q := 0; q < k && !hung; q++ {
-					if s.r.intn(2) == 0 && len(rs) > 0 {
-						r := rs[s.r.intn(len(rs))]
-						m, a := s.g.genCall(r, false)
-						if s.w.reps[r].typ == "document" {
-							a["_h"] = "root"
-						}
-						hung = s.emit(s.w.stepCall(r, m, a))
-					} else {
+					switch s.r.intn(5) {
+					case 0, 1:
+						hung = callOn(sel)
+					case 2, 3:
 						s.hold++
 						hung = s.emit(s.w.stepSync(c, sel, "", s.hold, nil))
+					default:
+						hung = other()
 					}
 				}
 				if !hung {
-					hung = s.emit(s.w.stepApplyLate(s.hold - k))
+					hung = s.emit(s.w.stepApplyLate(lateHold))
+				}
+				if !hung && s.r.intn(2) == 0 {
+					// what the stale response may have damaged shows at the next exchanges
+					hung = other()
+					if !hung {
+						s.hold++
+						hung = s.emit(s.w.stepSync(c, sel, "", s.hold, nil))
+					}
 				}
 			}
 		case len(s.w.clients) < s.p.maxCli+1 && s.r.intn(3) == 0:
